@@ -258,6 +258,11 @@ class Source:
         return cls(relpath)        # deliberately not cached across runs; cheap
 
     def func(self, qualname):
+        if qualname == "<module>":      # the module-level statements as one synthetic function (imports and definitions excluded)
+            body = [n for n in self.tree.body if not isinstance(n, (ast.Import, ast.ImportFrom, ast.FunctionDef, ast.ClassDef))]
+            fn = ast.FunctionDef(name="<module>", args=ast.arguments(posonlyargs=[], args=[], kwonlyargs=[], kw_defaults=[], defaults=[]), body=body,
+                                 decorator_list=[], lineno=1, col_offset=0)
+            return fn
         if qualname in self.funcs:
             return self.funcs[qualname]
         body, node = self.tree.body, None          # nested defs: Class.method.inner
@@ -271,7 +276,7 @@ class Source:
         return node
 
     def sha(self, qualname):
-        seg = ast.get_source_segment(self.text, self.func(qualname)) or ""
+        seg = self.text if qualname == "<module>" else (ast.get_source_segment(self.text, self.func(qualname)) or "")
         return hashlib.sha256(seg.encode()).hexdigest()[:16]
 
     def resolve_import(self, name):
